@@ -45,6 +45,14 @@ def match_name(pattern, name):
     return False
 
 
+def has_slice(v):
+    if isinstance(v, SliceV):
+        return v.nil is not True
+    if isinstance(v, StructV):
+        return any(has_slice(x) for x in v.f.values())
+    return False
+
+
 class UnreachableCtx(Exception):
     pass
 
@@ -109,10 +117,14 @@ class SpecCtx:
         if k == "old":
             prev = self.in_old
             self.in_old = True
+            n0 = len(self.entry.pc)
             try:
                 return self.eval(a[1])
             finally:
                 self.in_old = prev
+                if self.entry is not self.st and len(self.entry.pc) > n0:
+                    # facts learned about uninterpreted values (ranges, nil <-> ref links) are unconditional truths
+                    self.st.pc.extend(self.entry.pc[n0:])
         if k == "un":
             if a[1] == "!":
                 self.pol = -self.pol
@@ -374,6 +386,8 @@ class SpecCtx:
             if self.pol != 1:
                 raise SpecError("slice equality may only be used in goal (positive) position")
             return self.deep_eq(x, y)
+        if isinstance(x, StructV) and isinstance(y, StructV) and self.pol == 1 and has_slice(x):
+            return self.deep_eq(x, y)
         return to_bool(st.eq(x, y))
 
     def unbox_like(self, iv, other):
@@ -437,12 +451,41 @@ class SpecCtx:
             srt_val = st.from_uf(t, fresh_name("q_" + x), [])
             self.bound[x] = srt_val
             consts.extend(leaves(srt_val))
-        # range assumptions added by from_uf went into st.pc: move them into the quantifier body as guards
-        body = to_bool(self.eval(a[2]))
-        self.bound = saved
+        # facts produced while building the bound values and evaluating the body (ranges, nil <-> ref links) mention the
+        # bound constants: they belong inside the quantifier
+        states = [self.st] + ([self.entry] if self.entry is not self.st else [])
+        marks = [len(x.pc) for x in states]
+        body = None
+        try:
+            body = to_bool(self.eval(a[2]))
+        finally:
+            self.bound = saved
+        facts = []
+        ids = set(c.get_id() for c in consts)
+
+        def mentions(e):
+            seen, stack = set(), [e]
+            while stack:
+                x = stack.pop()
+                if x.get_id() in seen:
+                    continue
+                seen.add(x.get_id())
+                if x.get_id() in ids:
+                    return True
+                stack.extend(x.children())
+            return False
+        for x, m0 in zip(states, marks):
+            keep = []
+            for f in x.pc[m0:]:
+                (facts if mentions(f) else keep).append(f)
+            del x.pc[m0:]
+            x.pc.extend(keep)
+        # the bound values themselves were created before `marks`: their range facts sit just below; harmless to leave
         if not consts:
             return body
-        return z3.ForAll(consts, body) if a[0] == "forall" else z3.Exists(consts, body)
+        if a[0] == "forall":
+            return z3.ForAll(consts, z3.Implies(z3.And(*facts), body) if facts else body)
+        return z3.Exists(consts, z3.And(*(facts + [body])))
 
     # ------------------------------------------------------------------ calls in specs
     def call(self, a):
